@@ -149,7 +149,10 @@ def gen_c01(rng, depth, refs, allow_anyof=True):
         else:
             d["contains"] = gen_c01(rng, depth - 1, refs, allow_anyof)
             if rng.random() < 0.4:
-                d["minContains"] = rng.choice([1, 2])
+                d["minContains"] = rng.choice([1, 2, 3])
+            if rng.random() < 0.35:
+                # an explicit minItems below, at and above the number of contained elements
+                d["minItems"] = max(0, d.get("minContains", 1) + rng.choice([-1, 0, 0, 1, 2]))
     k = rng.random()
     if k < 0.15:
         d["allOf"] = [gen_c01(rng, depth - 1, refs, allow_anyof) for _ in range(rng.choice([1, 2]))]
@@ -225,6 +228,27 @@ def gen_same_twice(rng):
         doc = {"type": "array", "prefixItems": [y()], "items": y(), "minItems": 2}
     else:
         doc = {"type": "array", "prefixItems": [y(), y()], "minItems": 2}
+    return doc
+
+
+def gen_shared_under_do_all(rng):
+    """one definition used by several children of one object / one items node under several array slots, the object or
+    array standing next to a sibling that has counter-examples of its own (it is then completed by the generator while
+    a leaf of the sibling is targeted)"""
+    D = rng.choice([{"type": "boolean"}, {"type": "string", "minLength": 1}, {"type": "integer", "minimum": 2}, {"enum": ["u", "v"]}])
+    names = rng.sample(J.NAMES, 2)
+    inner = {"type": "object", "properties": {names[0]: {"$ref": "#/$defs/D"}, names[1]: {"$ref": "#/$defs/D"}}, "required": list(names)}
+    sib = rng.choice([{"type": "number", "minimum": 3}, {"type": "string", "maxLength": 2}, {"type": "boolean"}])
+    m = rng.random()
+    if m < 0.4:
+        doc = {"type": "object", "properties": {"p": inner, "q": sib}, "required": ["p"] if rng.random() < 0.6 else ["p", "q"]}
+    elif m < 0.7:
+        doc = {"type": "array", "minItems": rng.choice([2, 3]), "items": inner}
+    elif m < 0.85:
+        doc = {"type": "object", "properties": {"p": {"type": "array", "items": {"$ref": "#/$defs/D"}, "minItems": rng.choice([2, 3])}, "q": sib}, "required": ["p"]}
+    else:
+        doc = {"type": "object", "properties": {"p": {"type": "array", "contains": {"$ref": "#/$defs/D"}, "minContains": 2}, "q": sib}, "required": ["p"]}
+    doc["$defs"] = {"D": D}
     return doc
 
 
@@ -458,14 +482,37 @@ def oracle_c01(doc):
     return res
 
 
-def oracle_c02(doc):
+def without_contains_fillers(doc):
+    """the same schema with minItems lowered to minContains wherever an array has 'contains' (and no items / prefixItems):
+    no element is generated beyond the contained ones"""
+    def go(s):
+        if isinstance(s, dict):
+            out = {k: ([go(x) for x in v] if isinstance(v, list) else go(v)) if k not in ("enum", "const", "required") else v for k, v in s.items()}
+            if "contains" in s and "items" not in s and "prefixItems" not in s and isinstance(s.get("minItems"), int):
+                out["minItems"] = min(s["minItems"], s.get("minContains", 1))
+            return out
+        return s
+    return go(doc)
+
+
+def oracle_c02(doc, classify_fillers=True):
     g, pairs, err = generate(doc)
     if g is None or err:
         return []
     v = jsonschema.Draft202012Validator(doc)
     for e, s in pairs:
         if not e.is_valid and v.is_valid(s):
-            return [("invalid-sample-accepted", "sample %s is labelled invalid but the validator accepts it" % json.dumps(s), s)]
+            sig = "invalid-sample-accepted"
+            if classify_fillers and isinstance(doc, dict) and has(doc, "contains"):
+                # listed finding: the elements appended to reach minItems (default samples) can themselves match 'contains'
+                # and make up for the contained element that was spoilt; gone once no filler is generated
+                try:
+                    var = without_contains_fillers(doc)
+                    if var != doc and not oracle_c02(var, classify_fillers=False):
+                        sig += ":fillers-match-contains"
+                except Exception:  # noqa
+                    pass
+            return [(sig, "sample %s is labelled invalid but the validator accepts it" % json.dumps(s), s)]
     return []
 
 
@@ -542,7 +589,7 @@ def oracle_c12(doc):
                     sub = doc
                     for k in path[:-1]:
                         sub = sub[k]
-                    if '"$ref": "#"' not in json.dumps(sub):
+                    if len(path) == 1 or '"$ref": "#"' not in json.dumps(sub):     # ('#' would name the wrapper below)
                         a = dict(sub)
                         b = {k: x for k, x in sub.items() if k != "type"}
                         if len(path) > 1 and isinstance(doc.get("$defs"), dict):
@@ -599,7 +646,7 @@ def run(pid, tier):
     n += len(docs)
     while len(docs) < n:
         m = rng.random()
-        d = gen_ref_twins(rng) if m < 0.06 else gen_same_twice(rng) if m < 0.12 else gen_doc(rng, allow_anyof=(pid == "C01"))
+        d = gen_ref_twins(rng) if m < 0.06 else gen_same_twice(rng) if m < 0.12 else gen_shared_under_do_all(rng) if m < 0.17 else gen_doc(rng, allow_anyof=(pid == "C01"))
         if isinstance(d, bool) or J.metaschema_ok(d):
             docs.append(d)
     hist = {"in_scope": 0, "with_ref": 0, "with_allOf": 0, "with_array": 0, "raises_library_exception": 0, "labelled_valid": 0, "labelled_invalid": 0,
@@ -677,7 +724,7 @@ def run(pid, tier):
                 got = [x for x in ORACLES[pid](small) if x[0] == sig]
                 if got:
                     what = got[0][1]
-            full_sig = sig if (pid == "C12" or "recursion-through" in sig or "unsatisfiable-items" in sig) else sig + ":" + classify(small)
+            full_sig = sig if (pid == "C12" or "recursion-through" in sig or "unsatisfiable-items" in sig or "fillers-match-contains" in sig) else sig + ":" + classify(small)
             ck.violation(full_sig, what, {"stream": "J", "schema": small})
     ck.sample({"schema": docs[0]})
     ck.sample({"schema": docs[5]})
